@@ -69,6 +69,15 @@ def execCodec (op : String) (a : List String) : String :=
   | "via", [s] => match parseVia (unhex s) with
       | none => "err"
       | some v => String.intercalate " " (["ok", toHexField (encodeVia v), toString v.length] ++ v.map viaParamFields)
+  | "viastamp", [s, ip, port] => match parseVia (unhex s) with
+      | none => "err"
+      | some [] => "err"
+      | some (vp :: rest) =>
+        let ps1 := setParam vp.params (str "received") (unhex ip)
+        let ps2 := if hasParam ps1 (str "rport") then setParam ps1 (str "rport") port.toUTF8.toList else ps1
+        let v := { vp with params := ps2 } :: rest
+        String.intercalate " " (["ok", toHexField (encodeVia v), toString v.length] ++
+          v.map fun p => s!"{optHex (getParam p.params (str "branch"))} {kvList p.params}")
   | "route", [s] => match parseRoute (unhex s) with
       | none => "err"
       | some r => routeLike r
